@@ -98,7 +98,7 @@ func (cs *callStat) call(name string, limit time.Duration, f func(ctx context.Co
 }
 
 func runC18(r *Run) {
-	r.Rule = "a client (with and without automatic reconnect) behind a cutting proxy is used from 6-8 goroutines at once for 150-400 ms: List/Get/WhereCache reads, Transact, Monitor and MonitorCancel of a second table, Echo, Disconnect/Connect cycles or proxy cuts, error paths (unknown table, cancelled context, calls while disconnected), while a writer updates rows whose columns always change together; every call must return by its context deadline + 3s, no reader may see a row mixing two versions, all goroutines must finish, and the run is repeated under the Go race detector; non-trivial = run with at least one reconnect or Disconnect/Connect cycle and at least 50 completed calls; distinct by (seed, run)"
+	r.Rule = "a client (with and without automatic reconnect) behind a cutting proxy is used from 6-8 goroutines at once for 150-400 ms: List/Get/WhereCache reads, Transact, Monitor and MonitorCancel of a second table, Echo, Disconnect/Connect cycles or proxy cuts, error paths (unknown table, cancelled context, calls while disconnected), while a writer updates rows whose columns always change together; every call must return by its context deadline + 3s; on a quiet database every way an API call can fail (Monitor without tables / of an unknown table / with a cancelled context, MonitorCancel of an unknown monitor, Transact and Echo with a cancelled context, Get of an unknown row) is followed by a read that must return at once and by a committed change that must reach the cache; no reader may see a row mixing two versions, all goroutines must finish, and the run is repeated under the Go race detector; non-trivial = run with at least one reconnect or Disconnect/Connect cycle and at least 50 completed calls; distinct by (seed, run)"
 	n := 12
 	if r.Tier == "thorough" {
 		n = 120
@@ -108,6 +108,9 @@ func runC18(r *Run) {
 	}
 	for h := 0; h < n; h++ {
 		c18Pinned(r, h)
+	}
+	for h := 0; h < 2*n; h++ {
+		c18AfterFailure(r, h)
 	}
 }
 
@@ -550,4 +553,113 @@ func c18Run(r *Run, h int) {
 	if err := final(); err != nil {
 		r.Violation("live", cs, err.Error(), "echo succeeds", true, "after the concurrent phase the client cannot reach the server any more", "")
 	}
+}
+
+// c18AfterFailure: a quiet database (nobody commits while the calls are made), every API call failing in
+// each way it can fail, each failure followed by calls that must still work: a read returns at once (not
+// when its context expires) and a transaction committed afterwards shows up in the cache.
+func c18AfterFailure(r *Run, h int) {
+	rng := r.Rng
+	ts := c18Schema()
+	rig, err := newRig(ts)
+	if err != nil {
+		return
+	}
+	defer rig.Close()
+	ctx, cancel := ctxT(60 * time.Second)
+	defer cancel()
+	row := pairRow(0)
+	row["key"] = VA(AS("r1"))
+	rig.im.transact([]OperationJ{{Op: "insert", Table: "Pair", UUID: mkUUID(1), Row: row}}, nil)
+	writer, _, err := rig.newClient(rig.endpoint())
+	if err != nil || writer.Connect(ctx) != nil {
+		return
+	}
+	defer writer.Close()
+	var opts []client.Option
+	if rng.Intn(2) == 0 {
+		opts = append(opts, client.WithReconnect(2*time.Second, backoff.NewConstantBackOff(2*time.Millisecond)))
+	}
+	a, adb, err := rig.newClient(rig.endpoint(), opts...)
+	if err != nil || a.Connect(ctx) != nil {
+		return
+	}
+	defer a.Close()
+	method := monitorMethods[rng.Intn(3)]
+	if _, err := a.Monitor(ctx, &client.Monitor{Method: method, Tables: []client.TableMonitor{{Table: "Pair"}}, LastTransactionID: "00000000-0000-0000-0000-000000000000"}); err != nil {
+		return
+	}
+	var failures []string
+	cs := map[string]interface{}{"run": h, "method": method, "failures": &failures}
+	version := int64(10)
+	for step := 0; step < 4; step++ {
+		kind := []string{"monitor-no-tables", "monitor-unknown-table", "monitor-cancelled-context", "monitor-cancel-unknown", "transact-cancelled-context", "get-unknown-row", "echo-cancelled-context"}[rng.Intn(7)]
+		failures = append(failures, kind)
+		cctx, cc := context.WithCancel(context.Background())
+		var ferr error
+		switch kind {
+		case "monitor-no-tables":
+			_, ferr = a.Monitor(ctx, &client.Monitor{Method: method})
+		case "monitor-unknown-table":
+			_, ferr = a.Monitor(ctx, &client.Monitor{Method: method, Tables: []client.TableMonitor{{Table: "NoSuchTable"}}})
+		case "monitor-cancelled-context":
+			cc()
+			_, ferr = a.Monitor(cctx, &client.Monitor{Method: method, Tables: []client.TableMonitor{{Table: "Other"}}, LastTransactionID: "00000000-0000-0000-0000-000000000000"})
+		case "monitor-cancel-unknown":
+			ferr = a.MonitorCancel(ctx, client.MonitorCookie{DatabaseName: "db", ID: "nosuchmonitor"})
+		case "transact-cancelled-context":
+			cc()
+			_, ferr = a.Transact(cctx, OperationJ{Op: "select", Table: "Pair"}.toOvs())
+		case "get-unknown-row":
+			ferr = a.Get(ctx, adb.NewModel("Pair", mkUUID(999), nil))
+		case "echo-cancelled-context":
+			cc()
+			ferr = a.Echo(cctx)
+		}
+		cc()
+		r.Count("after-failure:" + kind)
+		if ferr == nil && kind != "monitor-cancelled-context" {
+			// a call that was meant to fail succeeded: nothing to follow up (not this property's business)
+			r.Count("after-failure:did-not-fail")
+		}
+		// a read with a generous deadline returns at once
+		rctx, rc := ctxT(3 * time.Second)
+		t0 := time.Now()
+		m := adb.NewModel("Pair", mkUUID(1), nil)
+		gerr := a.Get(rctx, m)
+		took := time.Since(t0)
+		rc()
+		if took > time.Second {
+			r.Violation("after-failure", cs, fmt.Sprintf("Get returned after %v (err=%v)", took, gerr), "an immediate answer", true,
+				"after a failed "+kind+" call a read blocks until its context expires", "")
+			return
+		}
+		// and the cache still follows the database
+		version++
+		wctx, wc := ctxT(3 * time.Second)
+		_, werr := writer.Transact(wctx, OperationJ{Op: "update", Table: "Pair", Where: byUUID(mkUUID(1)), Row: pairRow(version)}.toOvs())
+		wc()
+		if werr != nil {
+			return
+		}
+		cols := map[string][]string{"Pair": nil}
+		var got, want string
+		for try := 0; try < 400; try++ {
+			want = dumpCanon(projectDump(ts.Spec, rig.im.dump(), cols))
+			func() {
+				defer func() { _ = recover() }()
+				got = dumpCanon(projectDump(ts.Spec, cacheDump(a, adb, []string{"Pair"}), cols))
+			}()
+			if got == want {
+				break
+			}
+			time.Sleep(5 * time.Millisecond)
+		}
+		if got != want {
+			r.Violation("after-failure", cs, diffLines(got, want), "cache = database", true,
+				"after a failed "+kind+" call the cache no longer follows the database", "")
+			return
+		}
+	}
+	r.Case("after-failure", fmt.Sprint(h))
 }
